@@ -182,6 +182,25 @@ def check_case(res, rt, r, doc, key):
                                 "failures": [(p, v) for p, v, _ in got_f]},
                       expected={k: want[k] for k in ("valid", "tested", "failures")})
         return
+    if want["tested"]:
+        # H flavour: one Data wrapper, the same rule tested on it twice
+        from valida.data import Data
+        res.count("transitions", 2)
+        try:
+            D = Data(d)
+            obs = []
+            for _ in (1, 2):
+                t2 = r.test(D)
+                obs.append((t2.is_valid, t2.tested, [(tuple(f.path), f.reasons != ()) for f in t2.failures]))
+        except BaseException as e:
+            res.violation("rewrapped-raises:%s:%s" % (type(e).__name__, sig_tail), "testing %s twice on one Data wrapper of %r raised %r"
+                          % (T.show(rt), doc, e), case, observed=repr(e))
+            return
+        exp = (want["valid"], True, [(wp, True) for wp, _ in want["failures"]])
+        if obs[0] != exp or obs[1] != exp:
+            res.violation("rewrapped-differs:%s" % sig_tail, "testing %s twice on one Data wrapper of %r gives different answers"
+                          % (T.show(rt), doc), case, observed=obs, expected=exp)
+            return
     if vsnap(d) != before:
         res.violation("document-changed:%s" % sig_tail, "testing %s changed the document %r -> %r" % (T.show(rt), doc, d), case,
                       observed=d, expected=doc)
